@@ -16,7 +16,7 @@ Theorem C16_inv_meaning : forall (ow : bool) (sq : nat) (q : q1),
   inv ow sq q <->
   (0 < sq /\ cnt q <= qsize q /\ (0 < qsize q -> head q < qsize q) /\
    (0 < cnt q -> tail q = intern q (cnt q - 1)) /\
-   match st q with SNull => arr q = [] | SSmall => qsize q = sq | SHeap => sq <= qsize q end /\
+   match st q with SNull => arr q = [] | SSmall => qsize q = sq | SHeap => True end /\
    (ow = true -> forall s, s < qsize q -> (forall i, i < cnt q -> intern q i <> s) ->
       nth s (arr q) dflt = dflt) /\
    (st q <> SSmall ->
@@ -28,7 +28,7 @@ Theorem C16_inv_empty : forall (ow : bool) (sq : nat) (jk : Z), 0 < sq -> inv ow
 Proof. exact inv_empty. Qed.
 Print Assumptions C16_inv_empty.
 
-(* every one of the 38 modelled single-queue operations, on every state satisfying the invariant, for both item
+(* every one of the 40 modelled single-queue operations, on every state satisfying the invariant, for both item
    kinds, every junk value and every inline-array size: the invariant is preserved, the resulting
    items are those of the ideal sequence and the result (value / status / count / index) is the same *)
 Theorem C16_step_refines : forall (ow : bool) (jk : Z) (sq : nat) (q : q1) (o : op),
@@ -140,6 +140,14 @@ Theorem C16_normalize_rotation : forall (a : list Z) (hd : nat),
   0 < hd < length a -> hsieh_rotate a hd = skipn hd a ++ firstn hd a.
 Proof. exact hsieh_rotate_ok. Qed.
 Print Assumptions C16_normalize_rotation.
+
+(* ReleaseRawDataArray: the array handed out holds the items -- in user order when an in-object array had to be
+   copied, in ring order when the heap array itself is handed out *)
+Theorem C16_release_array_items : forall (jk : Z) (sq : nat) (ow : bool) (q : q1) (i : nat),
+  inv ow sq q -> i < cnt q ->
+  nth (match st q with SSmall => i | _ => intern q i end) (snd (release ow jk q)) 0%Z = getu q i.
+Proof. exact release_array_items. Qed.
+Print Assumptions C16_release_array_items.
 
 (* ---- two queues: SwapContents, Plunder (move), operator=, ==, StartsWith/EndsWith, the Queue-argument
    forms of AddTailMulti/AddHeadMulti/InsertItemsAt, also with a Queue passed as its own argument *)
